@@ -36,6 +36,11 @@ type xchan struct {
 	timer   bool // a timer/deadline channel: may fire whenever waited upon
 	never   bool // timer that never fires
 	ctxDone bool // a context deadline: firing closes the channel
+	// discrete-event timers (TIMERS_DES=1): the timer fires only when every goroutine is blocked,
+	// earliest deadline first; firing advances the virtual clock to the deadline
+	des      bool
+	deadline int64
+	fired    bool
 }
 
 func newChan(n int) *xchan { return &xchan{cap: n} }
@@ -129,6 +134,7 @@ func (e *Engine) yield(forced bool) {
 	}
 	c := e.decide(make([]string, len(ord)))
 	e.SchedDecisions++
+	e.pathNondet = true
 	e.switchTo(ord[c])
 }
 
@@ -138,6 +144,9 @@ func (e *Engine) block(what string, ready func() bool) {
 		g := e.cur
 		g.ready, g.what = ready, what
 		r := e.runnable()
+		for len(r) == 0 && e.fireNextTimer() {
+			r = e.runnable()
+		}
 		if len(r) == 0 {
 			// nobody can run: deadlock (if main is blocked) — end of path for main
 			e.deadlock()
@@ -148,11 +157,66 @@ func (e *Engine) block(what string, ready func() bool) {
 		} else {
 			c := e.decide(make([]string, len(r)))
 			e.SchedDecisions++
+			e.pathNondet = true
 			next = r[c]
 		}
-		e.switchTo(next)
+		if next != g {
+			e.switchTo(next)
+		}
 		g.ready, g.what = nil, ""
 	}
+}
+
+// newDESTimer arms a discrete-event timer of d nanoseconds.
+func (e *Engine) newDESTimer(d value, ctxDone bool) *xchan {
+	dd, ok := d.(int64)
+	if !ok {
+		panic(infraError{"TIMERS_DES needs concrete timer durations"})
+	}
+	ch := &xchan{cap: 1, timer: true, des: true, deadline: e.desNow + dd, ctxDone: ctxDone}
+	e.desTimers = append(e.desTimers, ch)
+	return ch
+}
+
+// fireNextTimer fires the armed discrete-event timer with the earliest deadline (creation order on
+// ties) and advances the virtual clock to it.  It reports whether a timer fired.
+func (e *Engine) fireNextTimer() bool {
+	var best *xchan
+	for _, t := range e.desTimers {
+		if t.never || t.fired || t.closed {
+			continue
+		}
+		if best == nil || t.deadline < best.deadline {
+			best = t
+		}
+	}
+	if best == nil {
+		return false
+	}
+	if best.deadline > e.desNow {
+		e.clock = binop(token.ADD, tInt64, e.now(), best.deadline-e.desNow)
+		e.desNow = best.deadline
+	}
+	best.fired = true
+	e.TimersFired++
+	if best.ctxDone {
+		best.closed = true
+	} else {
+		best.buf = []value{timeVal(e.now())}
+	}
+	return true
+}
+
+// settle lets every goroutine run until all are finished or blocked with no timer left to fire,
+// and returns the number of unfinished secondary goroutines.
+func (e *Engine) settle() int {
+	for {
+		e.drain()
+		if e.blockedGoroutines() == 0 || !e.fireNextTimer() {
+			break
+		}
+	}
+	return e.blockedGoroutines()
 }
 
 // deadlock: no goroutine can make progress.
@@ -207,6 +271,9 @@ func spawnGoroutine(i *interpreter, pos token.Pos, fn value, args []value) {
 			}
 			// normal exit: pass the baton on
 			r := e.runnable()
+			for len(r) == 0 && e.fireNextTimer() {
+				r = e.runnable()
+			}
 			if len(r) == 0 {
 				e.fault = deadlockErr{"all remaining goroutines blocked"}
 				e.switchTo(e.gors[0])
@@ -218,6 +285,7 @@ func spawnGoroutine(i *interpreter, pos token.Pos, fn value, args []value) {
 			} else {
 				c := e.decide(make([]string, len(r)))
 				e.SchedDecisions++
+				e.pathNondet = true
 				next = r[c]
 			}
 			e.switchTo(next)
@@ -245,6 +313,7 @@ func (e *Engine) drain() {
 		} else {
 			c := e.decide(make([]string, len(r)))
 			e.SchedDecisions++
+			e.pathNondet = true
 			next = r[c]
 		}
 		// main stays runnable; it gets the baton back when next blocks or finishes
@@ -332,7 +401,7 @@ func chanSend(c value, v value) {
 func sameSlot(a, b []value) bool { return len(a) > 0 && len(b) > 0 && &a[0] == &b[0] }
 
 func (ch *xchan) recvReady() bool {
-	return ch.closed || len(ch.buf) > 0 || len(ch.slot) > 0 || ch.timer && !ch.never
+	return ch.closed || len(ch.buf) > 0 || len(ch.slot) > 0 || ch.timer && !ch.never && !ch.des
 }
 
 func (ch *xchan) take() (value, bool) {
@@ -346,7 +415,7 @@ func (ch *xchan) take() (value, bool) {
 		ch.slot = nil
 		return v, true
 	}
-	if ch.timer && !ch.never && !ch.closed {
+	if ch.timer && !ch.never && !ch.closed && !ch.des {
 		if ch.ctxDone {
 			ch.closed = true
 			return nil, false
@@ -434,6 +503,7 @@ func doSelect(fr *frame, instr *ssa.Select) value {
 	pick := r[0]
 	if len(r) > 1 {
 		pick = r[e.decide(make([]string, len(r)))]
+		e.pathNondet = true
 	}
 	c := cases[pick]
 	if c.send {
